@@ -84,6 +84,11 @@ def _run(kind, chunk, key, op, data, path, sizes, rng):
     io.linger = rng.choice([0.0, 0.0, 0.002])
     if os.path.lexists(path):
         os.remove(path)
+    if rng.random() < 0.5:
+        # the file exists already and holds something else (longer or shorter than what is written next): a write
+        # REPLACES the contents
+        with open(path, "wb") as f:
+            f.write(rng.choice([b"stale\n", b"previous contents of the file\n" * 40, b"\x00\xff", b"x"]))
     p = linux.Path(m, path.decode("utf-8"))
     n_tx, n_pc = len(io.tx), len(io.pieces)
     broken = False
